@@ -85,7 +85,9 @@ fn pack_lists() {
     let n = ts.len();
     let targets = [pt(0), pt(1), pt(-1), pt(5), pt(-5), pt(20), pt(-20), pt(100), Scaled(12345)];
     let mut cases = 0u64;
-    for len in 0..=3usize {
+    // thorough tier: every list of up to FOUR nodes
+    let max_len = if std::env::var("VERIF_TIER").map(|t| t == "thorough").unwrap_or(false) { 4usize } else { 3 };
+    for len in 0..=max_len {
         let mut idx = vec![0usize; len];
         loop {
             let list: Vec<Horizontal> = idx.iter().map(|&i| ts[i].clone()).collect();
